@@ -162,30 +162,58 @@ func pakClassIn(p uint32) string {
 }
 
 // direct evaluation of the C04 statement on the real functions for every address (SWEEP)
-func sweepC04(m mapperT, is *issues) (nRI, nCol uint64) {
+// expected value of a swept function at address a, from its recorded page table
+func fromTable(tbl []pageLine, a uint32) (uint32, bool) {
+	ln := tbl[a/pageSize]
+	if ln.M == 0 {
+		return 0, false
+	}
+	return uint32(ln.B) + a%pageSize, true
+}
+
+func sweepC04(m mapperT, tb2p, tp2b []pageLine, is *issues) (nRI, nCol uint64) {
+	// the mappers are stateless functions: in a mixed sequence of calls in both directions every result must
+	// still be the one the single-direction sweep recorded, and lie inside a class window (C05)
+	stable := func(dir string, tbl []pageLine, a, r uint32, err error) {
+		want, ok := fromTable(tbl, a)
+		if tbl[a/pageSize].U == 0 {
+			return
+		}
+		if ok != (err == nil) || (ok && want != r) {
+			is.add("unstable", m.name, dir, a, fmt.Sprintf("in a mixed call sequence f(%#x)=%#x err=%v, but %#x mapped=%v when swept alone", a, r, err, want, ok))
+		}
+		if dir == "b2p" && err == nil && pakClassOut(r) == "bad" {
+			is.add("range", m.name, dir, a, fmt.Sprintf("result %#x lies in no memory-class window", r))
+		}
+	}
 	for a := uint32(0); a < 1<<24; a++ {
 		p, err := m.b2p(a)
+		stable("b2p", tb2p, a, p, err)
 		if err != nil {
 			continue
 		}
 		nRI++
 		a2, err2 := m.p2b(p)
+		stable("p2b", tp2b, p, a2, err2)
 		if err2 != nil {
 			is.add("c04_rightinverse", m.name, "", a, fmt.Sprintf("B2P(%#x)=%#x but P2B(%#x) fails", a, p, p))
 			continue
 		}
 		p2, err3 := m.b2p(a2)
+		stable("b2p", tb2p, a2, p2, err3)
 		if err3 != nil || p2 != p {
 			is.add("c04_rightinverse", m.name, "", a, fmt.Sprintf("B2P(%#x)=%#x, P2B=%#x, B2P again=%#x err=%v", a, p, a2, p2, err3))
 		}
 	}
 	for p := uint32(0); p < 1<<24; p++ {
 		a, err := m.p2b(p)
+		stable("p2b", tp2b, p, a, err)
 		if err != nil {
 			continue
 		}
 		nCol++
 		q, err2 := m.b2p(a)
+		stable("b2p", tb2p, a, q, err2)
 		if err2 != nil {
 			is.add("c04_collapse", m.name, "", p, fmt.Sprintf("P2B(%#x)=%#x which B2P does not map", p, a))
 			continue
@@ -212,8 +240,8 @@ func init() {
 			all = append(all, sweepTable(4+i, m.name, "p2b", m.p2b, &is)...)
 		}
 		var nRI, nCol uint64
-		for _, m := range mappers {
-			a, b := sweepC04(m, &is)
+		for i, m := range mappers {
+			a, b := sweepC04(m, all[i*nPages:(i+1)*nPages], all[(4+i)*nPages:(5+i)*nPages], &is)
 			nRI += a
 			nCol += b
 		}
